@@ -15,6 +15,9 @@ CLAIMS = {
  'C10': dict(cat='proof', ref='DESIGN.md 7 (C10)',
    text="The gate in the open path (FileHDF5::checkHeader, the constructor's Force handling) accepts exactly the triples the statement allows, for all modes and both Force values; canRead/canWrite and all six comparison operators of FormatVersion (include/nix/Version.hpp) carry the statement as postconditions over all int triples; order laws (irreflexive, transitive, trichotomy, derived operators) and the read/write gate are lemmas over those contracts.",
    note=NOTE_COMMON + "checkHeader and the constructor statement applying the Force flag are under contract with the header attributes as ghost inputs (every content libhdf5 can report); that libhdf5 returns the stored attributes is assumed. The library version is left arbitrary."),
+ 'C13': dict(cat='proof', ref='DESIGN.md 7 (C13), 12',
+   text="Kernel claim: the invariant of the descriptor list is a postcondition of every entry point under contract - createDimensionGroup only (re)creates the group of an index in 1..count+1 and touches no other; appendRangeDimension / RangeDimension::ticks hand only ascending ticks to the back end; appendSampledDimension / SampledDimension::samplingInterval only positive intervals, at index count+1, with the offset as given.",
+   note=NOTE_COMMON + "Kernel only: the back end is a ghost record of what it was asked to store; read-back after reopen, alias redirection (HDF5 hard link), set and data-frame dimensions and deleteDimensions are not covered. std::is_sorted is an assumed contract."),
  'C16': dict(cat='proof', ref='DESIGN.md 7 (C16), 12',
    text="Kernel claim: per function under contract, CBMC's built-in checks (bounds, pointer validity, pointer arithmetic, signed overflow, float-to-integer conversion, division by zero, shifts) are discharged under type-invariant-only preconditions, i.e. for every argument a C++ caller can form the function returns or raises. Covers the position-to-index functions for all doubles incl. NaN/inf/1e300 and any tick vector.",
    note=NOTE_COMMON + "Kernel only: absence of UB for sequences of API calls, handle lifetimes after delete/close and libhdf5 internals are not covered."),
@@ -32,7 +35,7 @@ NA = {
  'C20': "breadth-first search over std::list/std::function on HDF5-backed handles; not extractable without writing a model",
 }
 PENDING = {k: "check not built yet (planned kernel claim, DESIGN.md section 7)" for k in
-           ['C01', 'C05', 'C06', 'C11', 'C13', 'C14', 'C18', 'C19']}
+           ['C01', 'C05', 'C06', 'C11', 'C14', 'C18', 'C19']}
 def main():
     extra = json.load(open(os.path.join(ROOT, 'vlib', 'claims_extra.json'))) if os.path.exists(os.path.join(ROOT, 'vlib', 'claims_extra.json')) else {}
     checks = []
